@@ -475,7 +475,7 @@ def gen_case(rng, tier, kinds=None):
         act = gen_active(rng, d) if with_active and rng.random() < 0.7 else None
         hps.append({"name": nm, "dom": d, "active": act})
     spec = {"hps": hps, "seed": rng.randrange(10 ** 9), "n_points": 6 if tier == "quick" else 12}
-    if rng.random() < 0.25:
+    if rng.random() < 0.3:
         spec["name_last_pos"] = rng.choice(names)
         spec["fix_last"] = rng.random() < 0.7
     if n >= 2 and rng.random() < 0.15:
@@ -1017,8 +1017,81 @@ def run_case(spec):
                 case.finding("c07:fixed-last-not-kept:" + kind_tag(descs[n]),
                              f"fixed last position {n}: box point decodes to {cfg[n]!r}, value_for_last_pos {kwargs['value_for_last_pos']!r}",
                              {"domain": descs[n]})
+    run_moving_fixed(case, spec, header, hr, descs, doms, members, act_members, kwargs, rng)
     run_json(case, spec, descs, doms, hr)
     return finish(case)
+
+
+def run_moving_fixed(case, spec, header, hr, descs, doms, members, act_members, kwargs, rng):
+    """the fixed value of the last position is a mutable attribute which multi-fidelity searchers move from one
+    resource level to the next on ONE ranges object: after every move the bounds box must pin the last position to
+    the current value (or not pin it for None), sampled configurations carry it and encode inside the box, and the box
+    decodes to it. Falsy members (0, 0.0, '') are legal fixed values and are tried first."""
+    n = kwargs.get("name_last_pos")
+    if n is None:
+        return
+    pool = list(act_members.get(n, members[n]))
+    if not pool:
+        return
+    cands = []
+    for c in (0, 0.0, ""):
+        try:
+            okc = membership(descs[n], doms[n], c)[0] == "ok" and (n not in act_members or any(same_value(descs[n], doms[n], c, m) for m in pool))
+        except Exception:  # noqa
+            okc = False
+        if okc:
+            cands.append(c)
+    seq = cands[:1] + [rng.choice(pool), None, rng.choice(pool)]
+    rs = np.random.RandomState(rng.randrange(2 ** 31))
+    for v in seq:
+        hr.value_for_last_pos = v
+        hdr = dict(header)
+        hdr["value_for_last_pos"] = None if v is None else val_wire(v)
+        hdr["moved"] = True
+        try:
+            bounds = hr.get_ndarray_bounds()
+        except Exception as e:  # noqa
+            case.lines.append((hdr, {"err": errname(e)}))
+            case.finding("c07:moved-fixed-bounds-raise", f"get_ndarray_bounds raised {type(e).__name__} after value_for_last_pos := {v!r}", {"domain": descs[n]})
+            return
+        d_enc = int(hr.ndarray_size)
+        case.lines.append((hdr, {"keys": list(hr.internal_keys), "ndarray_size": d_enc,
+                                 "bounds": [[frac_str(float(a)), frac_str(float(b))] for a, b in bounds]}))
+        case.count("moved-fixed:" + ("none" if v is None else "falsy" if not v else "value"))
+        huge = descs[n]["k"] in ("lograndint", "qlograndint") and descs[n]["hi"] >= 2 ** 40
+        # sampled configurations carry the current value and encode inside the current box
+        for _ in range(3):
+            try:
+                cfg = hr.random_config(rs)
+                enc = hr.to_ndarray(cfg)
+            except Exception:  # noqa (degenerate domains: reported by the domain-level checks)
+                break
+            if v is not None and not same_value(descs[n], doms[n], cfg[n], v):
+                case.finding("c07:moved-fixed-not-sampled:" + kind_tag(descs[n]),
+                             f"value_for_last_pos := {v!r} on an existing ranges object: random_config gives {n}={cfg[n]!r}", {"domain": descs[n]})
+            if v is not None and membership(descs[n], doms[n], cfg[n])[0] == "ok" and not huge:
+                st, en = hr.encoded_ranges[n]  # (the other coordinates are boxed by active sub-ranges, which sampling ignores)
+                for x, (a, b) in list(zip(enc.reshape(-1), bounds))[st:en]:
+                    if not (a - 1e-9 <= x <= b + 1e-9):
+                        case.finding("c07:moved-fixed-sample-outside-box:" + kind_tag(descs[n]),
+                                     f"value_for_last_pos := {v!r} on an existing ranges object: a sampled configuration encodes to {float(x)!r} outside "
+                                     f"the bounds ({float(a)!r}, {float(b)!r})", {"domain": descs[n], "moved_to": repr(v)})
+                        break
+        # the box decodes to the current value
+        if v is None:
+            continue
+        for t in (0.0, 1.0, rng.random()):
+            pnt = [float(a + (b - a) * t) for a, b in bounds]
+            inp = {"op": "decode", "x": [frac_str(z) for z in pnt], "why": "box-moved"}
+            try:
+                cfg = hr.from_ndarray(np.array(pnt, dtype=float))
+            except Exception as e:  # noqa
+                case.lines.append((inp, {"err": errname(e)}))
+                continue
+            case.lines.append((inp, {"config": {k: val_wire(w) for k, w in cfg.items()}}))
+            if not same_value(descs[n], doms[n], cfg[n], v) and not huge:
+                case.finding("c07:moved-fixed-not-kept:" + kind_tag(descs[n]),
+                             f"value_for_last_pos := {v!r} on an existing ranges object: the bounds box decodes to {n}={cfg[n]!r}", {"domain": descs[n]})
 
 
 def run_json(case, spec, descs, doms, hr):
